@@ -33,11 +33,13 @@ def main():
 
     scratch = tempfile.mkdtemp(prefix="eqlmc_mut_", dir="/tmp")
     try:
-        for d in ("src", "test"):
-            shutil.copytree(os.path.join("/repo", d), os.path.join(scratch, d),
-                            ignore=shutil.ignore_patterns("__pycache__"))
-        for f in ("pyproject.toml",):
-            shutil.copy(os.path.join("/repo", f), scratch)
+        # the scratch copy is /repo's committed HEAD (not its working tree), so that experiments going on in /repo cannot
+        # leak into a mutation run
+        ar = subprocess.run(["git", "-C", "/repo", "archive", "HEAD", "src", "test", "pyproject.toml"], capture_output=True)
+        if ar.returncode != 0:
+            print("ARCHIVE-FAILED", ar.stderr.decode()[-300:])
+            return 2
+        subprocess.run(["tar", "-x", "-C", scratch], input=ar.stdout, check=True)
         cmd = ["patch", "-p1", "--no-backup-if-mismatch", "-i", os.path.abspath(a.patch)]
         if a.reverse:
             cmd.insert(1, "-R")
